@@ -16,7 +16,7 @@ import numpy as np
 # --------------------------------------------------------------------------- #
 # unit cells
 
-STRUCTS = ['fcc/f', 'bcc/i', 'hcp/3', 'fcc/p', 'bcc/p', 'hcp/4', 'fcc-prim', 'bcc-prim']
+STRUCTS = ['fcc/f', 'bcc/i', 'hcp/3', 'fcc/p', 'B2/p', 'hcp/4', 'fcc-prim', 'bcc-prim']      # B2: two atom types (natypes = 2)
 
 _FCC_BASIS = np.array([[0, 0, 0], [.5, .5, 0], [.5, 0, .5], [0, .5, .5]], float)
 _BCC_BASIS = np.array([[0, 0, 0], [.5, .5, .5]], float)
@@ -49,14 +49,16 @@ def unit_cell(struct, rng):
     if fam == 'fcc':
         a = rng.uniform(3.5, 4.4)
         sym = 'Al'
-    elif fam == 'bcc':
+    elif fam in ('bcc', 'B2'):
         a = rng.uniform(2.8, 3.3)
         sym = 'Fe'
     else:
         a = rng.uniform(2.9, 3.3)
         sym = 'Ti'
     out = dict(struct=struct, family=fam, a=a, symbols=[sym], hex4=struct == 'hcp/4')
-    if fam in ('fcc', 'bcc'):
+    if fam == 'B2':
+        out.update(vects=a * np.eye(3), rel=_BCC_BASIS.copy(), atype=np.array([1, 2]), symbols=['Ni', 'Al'], setting='p', conv2cell=np.eye(3))
+    elif fam in ('fcc', 'bcc'):
         if prim:
             P = _PRIM[fam]                       # primitive vectors in conventional units
             out['vects'] = lammps_form(a * P)
@@ -105,6 +107,16 @@ SLIP = {
              screw=[[1, 1, -1]], edge=[[5, -4, 1]],
              mixed=[[2, -1, 0]],
              mixedhi=[[3, 0, -1], [1, -2, 1]]),
+    ],
+    'B2': [
+        dict(name='{110}<001>', hkl=[1, 1, 0], b=[0, 0, 1],
+             screw=[[0, 0, 1]], edge=[[1, -1, 0]],
+             mixed=[[1, -1, 1], [1, -1, -1], [1, -1, 2]],
+             mixedhi=[[1, -1, 3], [2, -2, 1], [3, -3, 1]]),
+        dict(name='{100}<001>', hkl=[1, 0, 0], b=[0, 0, 1],
+             screw=[[0, 0, 1]], edge=[[0, 1, 0]],
+             mixed=[[0, 1, 1], [0, 1, -1], [0, 1, 2]],
+             mixedhi=[[0, 1, 3], [0, 3, 1], [0, 3, 2]]),
     ],
     'hcp': [
         dict(name='basal<a>', hkl=[0, 0, 1], b=[1, 0, 0],
@@ -161,7 +173,7 @@ def slip_case(cell, rng, isys, character, iline, flip):
     b = np.array(s['b'], float)
     if flip:
         xi = -xi
-    if fam in ('fcc', 'bcc'):
+    if fam in ('fcc', 'bcc', 'B2'):
         P = _SIGNED_PERMS[int(rng.integers(0, len(_SIGNED_PERMS)))]
         hkl, b, xi = hkl @ P, b @ P, xi @ P
         # express in the cell's own basis: vector = uvw_conv . A_conv = uvw_cell . A_cell, A_conv = conv2cell . A_cell
@@ -196,7 +208,7 @@ def elastic_constants(cell, rng, isotropic=False):
     """Positive-definite stiffness of the crystal's symmetry class, as keyword
     arguments C11=... for the constructor.  Cubic: Zener ratio in [0.4, 3.5]
     excluding [0.9, 1.1] unless `isotropic` (then exactly 1)."""
-    if cell['family'] in ('fcc', 'bcc'):
+    if cell['family'] in ('fcc', 'bcc', 'B2'):
         C12 = rng.uniform(50, 150)
         C44 = rng.uniform(30, 120)
         if isotropic:
